@@ -568,6 +568,57 @@ def check(model, rep, tier):
             line=hl.node.lineno,
             witness='lambda: [i for i in xs]  /  lambda: (lambda k: k + y)')
 
+  # a class body runs when the class statement does: the free names of the
+  # body's (isolated) scope must be exported into the scope that is recorded on
+  # the class statement, i.e. that scope is still open when the body's scope is
+  # closed.  Same symbolic stack as for the lambda handler.
+  hc = cls.methods['visit_ClassDef']
+  cpn = hc.params()[0]
+  cstack, ckinds, cparent_at_exit, crecorded = [], {}, {}, {}
+
+  def _cwalk(stmts):
+    for st in stmts:
+      if isinstance(st, ast.With):
+        _cwalk(st.body)
+        continue
+      if isinstance(st, (ast.If, ast.For, ast.While, ast.Try)):
+        if any(isinstance(c_, ast.Call) and core.norm(c_.func) in (
+            'self._enter_scope', 'self._exit_and_record_scope', 'self._exit_scope')
+               for c_ in ast.walk(st)):
+          raise core.AnalysisError('visit_ClassDef: scopes entered or left conditionally')
+        continue
+      for c_ in core.preorder(st):
+        if not isinstance(c_, ast.Call):
+          continue
+        f_ = core.norm(c_.func)
+        if f_ == 'self._enter_scope':
+          sid = len(ckinds)
+          a0 = c_.args[0] if c_.args else None
+          ckinds[sid] = a0.value if isinstance(a0, ast.Constant) else None
+          cstack.append(sid)
+        elif f_ in ('self._exit_and_record_scope', 'self._exit_scope'):
+          if not cstack:
+            raise core.AnalysisError('visit_ClassDef: scope stack underflow')
+          sid = cstack.pop()
+          cparent_at_exit[sid] = cstack[-1] if cstack else None
+          if f_.endswith('record_scope') and c_.args and len(c_.args) == 1 and \
+              not c_.keywords:
+            crecorded[sid] = core.norm(c_.args[0])
+  _cwalk(hc.node.body)
+  stmt_sc = [sid for sid, n_ in crecorded.items() if n_ == cpn]
+  iso_sc = [sid for sid, k_ in ckinds.items() if k_ is True]
+  okcb = len(stmt_sc) == 1 and len(iso_sc) == 1 and \
+      cparent_at_exit.get(iso_sc[0]) == stmt_sc[0]
+  rep.check(okcb, 'PARAMS', '%s:class-body-reads-belong-to-the-class-statement' % hc.site,
+            'the class body is executed by the class statement: the names it reads '
+            'from the enclosing function must be reads of that statement (its scope '
+            'must still be open when the body\'s isolated scope is closed), or they '
+            'are not live at the statement',
+            {'statement_scope': stmt_sc, 'body_scope': iso_sc,
+             'body_scope_closed_into': cparent_at_exit.get(iso_sc[0]) if iso_sc else None},
+            line=hc.node.lineno,
+            witness='if c: v = 1 / else: v = 2 / class A: attr = v  -- UnboundLocalError')
+
   # a statement's scope annotation is written once: a second record under the
   # same tag on the same node replaces the statement's scope by another one
   n_rec = 0
